@@ -93,8 +93,8 @@ func (vc *VC) inlinable0(fn *ssa.Function) bool {
 	if n > inlMaxInstrs {
 		return false
 	}
-	if vc.inferPure(fn) {
-		return false
+	if vc.inferPure(fn) && n > 40 {
+		return false // larger pure helpers keep the cheap treatment (unknown result, no effect)
 	}
 	return true
 }
